@@ -626,6 +626,28 @@ func C13(c *core.Ctx) {
 				reqs = append(reqs, c13req{Kind: "sfind", A: p, B: key2, Desc: fmt.Sprintf("struct-backed list whose second entry has the key %q", key2)})
 			}
 		}
+		// (a2) an edit aimed at a list itself (not at its parent): the document must hold the list as an array
+		seenList := map[string]bool{}
+		for _, l := range locs {
+			k := strings.LastIndex(l.path, "=")
+			if l.kind == "container" || k < 0 || strings.Contains(l.path[k:], "/") {
+				continue
+			}
+			lp := l.path[:k]
+			if seenList[lp] {
+				continue
+			}
+			seenList[lp] = true
+			name := lp[strings.LastIndex(lp, "/")+1:]
+			for _, shape := range []string{`{"x":1}`, `5`, `"b"`, `true`, `null`, `1.5`, `{}`} {
+				for _, kind := range []string{"json-upsert", "json-insert", "json-update"} {
+					reqs = append(reqs, c13req{Kind: kind, A: lp, B: fmt.Sprintf(`{%q:%s}`, name, shape), Desc: "list-rooted document whose list member is not an array", Must: "error"})
+				}
+			}
+			reqs = append(reqs, c13req{Kind: "json-upsert", A: lp, B: fmt.Sprintf(`{%q:[]}`, name), Desc: "list-rooted document with an empty array"},
+				c13req{Kind: "json-upsert", A: lp, B: `{}`, Desc: "list-rooted document without the list", Must: "error"},
+				c13req{Kind: "json-upsert", A: lp, B: fmt.Sprintf(`{%q:[],"other":1}`, name), Desc: "list-rooted document with a second member", Must: "error"})
+		}
 		// (d4) where/filter expressions along schema paths: containers on the way are absent in some entries
 		var wherePaths func(kids []*gen.SNode, at string)
 		var relLeaves func(kids []*gen.SNode, prefix string, out *[]string)
